@@ -35,8 +35,33 @@ func (tr *Trans) allocBound(x *ssa.MakeSlice, cp Term) {
 		env := tr.topEnv(tr.st)
 		bound = env.eval(tr.contract.Allocs[ord].AST).C[0]
 	}
+	goal := le(mul(cp, intT(es)), bound)
+	if !(tr.contract != nil && tr.top && tr.contract.Allocs[ord] != nil) {
+		// in proportion to data already held: at most four times (plus 4096) as many elements as a length this function has taken with len()
+		alts := []Term{goal}
+		for _, l := range tr.g.obsLens {
+			alts = append(alts, le(cp, add(mul(intT(4), l), intT(4096))))
+		}
+		goal = or(alts...)
+	}
 	tr.e.oblige(&Obl{Name: fmt.Sprintf("%s#alloc#%d", tr.label, ord), Kind: "alloc-bound", Cond: tr.rc,
-		Goal: le(mul(cp, intT(es)), bound), Pos: tr.posOf(x), Fn: tr.label, Props: tr.safetyProps()})
+		Goal: goal, Pos: tr.posOf(x), Fn: tr.label, Props: tr.safetyProps()})
+}
+
+// noteLen records a length the code computed with len(): allocations proportional to it are in proportion to data held.
+func (g *Gen) noteLen(l Term) {
+	if _, ok := constBits(l.S); ok {
+		return
+	}
+	for _, x := range g.obsLens {
+		if x.S == l.S {
+			return
+		}
+	}
+	if len(g.obsLens) >= 12 {
+		g.obsLens = g.obsLens[1:]
+	}
+	g.obsLens = append(g.obsLens, l)
 }
 
 func ifaceMethodKey(t types.Type, method string) string {
@@ -116,6 +141,9 @@ func (tr *Trans) call(c *ssa.CallCommon, in ssa.Instruction, resT types.Type) Va
 func (tr *Trans) staticCall(fn *ssa.Function, binds []Val, args []Val, in ssa.Instruction, resT types.Type) Val {
 	key := fn.String()
 	ct := tr.g.specs.Contracts[key]
+	if ct != nil && ct.Thin {
+		ct = nil
+	}
 	if fn.Synthetic != "" && ct == nil {
 		// wrappers/thunks: try the wrapped method
 		if fn.Object() != nil {
@@ -498,9 +526,14 @@ func (tr *Trans) applyContract(ct *Contract, fn *ssa.Function, sig *types.Signat
 	if tr.g.dry == 0 {
 		for _, rq := range ct.Requires {
 			env := mkEnv(pre, pre)
+			if top := tr.g.topTr; rq.TypeInv && top != nil && top.contract != nil && top.contract.Thin {
+				tr.assumeClause(env, tr.rc, rq.AST)
+				tr.g.e.note("assumed: data-structure invariant '%s' of %s holds for the values swept functions pass to it", rq.Label, short)
+				continue
+			}
 			t, extra := tr.goalClause(env, rq.AST)
 			tr.e.oblige(&Obl{Name: fmt.Sprintf("%s#requires@%s#%d:%s", tr.label, short, ord, rq.Label), Kind: "requires@call",
-				Props: unionProps(rq.Props, tr.propsOf()), Cond: tr.rc, Goal: t, Pos: tr.posOf(in), Fn: tr.label, Extra: extra})
+				Props: tr.calleeReqProps(rq.Props), Cond: tr.rc, Goal: t, Pos: tr.posOf(in), Fn: tr.label, Extra: extra})
 		}
 	}
 	// effects
@@ -509,6 +542,7 @@ func (tr *Trans) applyContract(ct *Contract, fn *ssa.Function, sig *types.Signat
 	} else if !ct.HasAssigns {
 		tr.e.note("%s: callee %s has a contract without assigns (heap havocked)", tr.label, short)
 		tr.st = tr.g.havocAll(tr.st, nil)
+		tr.st.ep.keep = ct.Preserves
 	} else {
 		env := mkEnv(pre, pre)
 		tr.havocTargets(env, ct)
@@ -552,6 +586,19 @@ func unionProps(a, b []string) []string {
 	return out
 }
 
+// calleeReqProps: a callee precondition counts for the callee's properties and the caller's; in a swept (thin) caller
+// only for the callee's own tags - its functional preconditions are not the sweep's business, its safety ones are.
+func (tr *Trans) calleeReqProps(rq []string) []string {
+	top := tr.g.topTr
+	if top != nil && top.contract != nil && top.contract.Thin {
+		if len(rq) == 0 {
+			return []string{"-"}
+		}
+		return rq
+	}
+	return unionProps(rq, tr.propsOf())
+}
+
 func (tr *Trans) framePropsOf() []string {
 	if tr.contract != nil {
 		return unionProps(tr.contract.Props, tr.contract.FrameProps)
@@ -578,6 +625,10 @@ func (tr *Trans) callerAsserts(when, callee string, ord int, args []Val, res Val
 		if as.Ordinal != 0 && as.Ordinal != ord {
 			continue
 		}
+		if tr.g.assertHit == nil {
+			tr.g.assertHit = map[*AssertSpec]bool{}
+		}
+		tr.g.assertHit[as] = true
 		env := tr.topEnv(post)
 		for i, a := range args {
 			env.vars[fmt.Sprintf("arg%d", i)] = a
@@ -595,6 +646,7 @@ func (tr *Trans) callerAsserts(when, callee string, ord int, args []Val, res Val
 // topEnv: environment of the function under verification: params bound, old() = function entry.
 func (tr *Trans) topEnv(post *State) *Env {
 	env := tr.newEnv(tr.pre, post)
+	env.locals = true
 	for i, p := range tr.fn.Params {
 		n := p.Name()
 		if tr.contract != nil && i < len(tr.contract.Params) && len(tr.contract.Params) == len(tr.fn.Params) {
@@ -612,6 +664,142 @@ func (tr *Trans) topEnv(post *State) *Env {
 		env.vars[fv.Name()] = v
 	}
 	return env
+}
+
+// nameAt finds the SSA value a local variable holds at the instruction being translated, from the debug references
+// of the build (one per source-level use or assignment of the name): the latest reference before the instruction in
+// its block, else in the dominating blocks, else the phi carrying the name at a dominating merge. The answer is only
+// accepted if no block on a path from the place it was found to the current instruction assigns the name a different
+// value (such an assignment would have needed a phi that pruning may have removed).
+func (tr *Trans) nameAt(name string) (ssa.Value, bool) {
+	in := tr.curInstr
+	if in == nil || in.Block() == nil || in.Parent() != tr.fn {
+		return nil, false
+	}
+	b := in.Block()
+	idx := len(b.Instrs)
+	for i, x := range b.Instrs {
+		if x == in {
+			idx = i
+			break
+		}
+	}
+	refName := func(x ssa.Instruction) (ssa.Value, bool) {
+		d, ok := x.(*ssa.DebugRef)
+		if !ok || d.IsAddr {
+			return nil, false
+		}
+		id, ok := d.Expr.(*ast.Ident)
+		if !ok || id.Name != name {
+			return nil, false
+		}
+		return d.X, true
+	}
+	chain := map[*ssa.BasicBlock]bool{}
+	var found ssa.Value
+	var fb *ssa.BasicBlock
+	cur, limit := b, idx
+	for cur != nil && found == nil {
+		chain[cur] = true
+		for i := limit - 1; i >= 0 && found == nil; i-- {
+			if v, ok := refName(cur.Instrs[i]); ok {
+				found, fb = v, cur
+			}
+		}
+		if found == nil {
+			for _, x := range cur.Instrs {
+				phi, ok := x.(*ssa.Phi)
+				if !ok {
+					break
+				}
+				if phi.Comment == name {
+					found, fb = phi, cur
+					break
+				}
+			}
+		}
+		if found != nil {
+			break
+		}
+		cur = cur.Idom()
+		if cur != nil {
+			limit = len(cur.Instrs)
+		}
+	}
+	if found == nil {
+		return nil, false
+	}
+	// blocks that can reach b without passing through fb
+	seen := map[*ssa.BasicBlock]bool{b: true}
+	work := []*ssa.BasicBlock{b}
+	for len(work) > 0 {
+		x := work[len(work)-1]
+		work = work[:len(work)-1]
+		if x == fb {
+			continue
+		}
+		for _, p := range x.Preds {
+			if !seen[p] {
+				seen[p] = true
+				work = append(work, p)
+			}
+		}
+	}
+	for x := range seen {
+		if chain[x] && x != b {
+			continue
+		}
+		if x == b || x == fb {
+			continue // scanned above: the latest reference before the instruction won
+		}
+		for _, ins := range x.Instrs {
+			if v, ok := refName(ins); ok && v != found {
+				return nil, false
+			}
+		}
+	}
+	return found, true
+}
+
+// localDefs maps the source name of each local variable that is never merged by a phi to its SSA definitions.
+func (tr *Trans) localDefs() map[string][]ssa.Value {
+	if tr.locals != nil {
+		return tr.locals
+	}
+	tr.locals = map[string][]ssa.Value{}
+	multi := map[string]bool{}
+	for _, b := range tr.fn.Blocks {
+		for _, in := range b.Instrs {
+			d, ok := in.(*ssa.DebugRef)
+			if !ok || d.IsAddr {
+				continue
+			}
+			id, ok := d.Expr.(*ast.Ident)
+			if !ok {
+				continue
+			}
+			if _, isPhi := d.X.(*ssa.Phi); isPhi {
+				multi[id.Name] = true
+				continue
+			}
+			if _, isConst := d.X.(*ssa.Const); isConst {
+				continue
+			}
+			dup := false
+			for _, o := range tr.locals[id.Name] {
+				if o == d.X {
+					dup = true
+				}
+			}
+			if !dup {
+				tr.locals[id.Name] = append(tr.locals[id.Name], d.X)
+			}
+		}
+	}
+	for n := range multi {
+		delete(tr.locals, n)
+	}
+	return tr.locals
 }
 
 // ---------- assigns targets ----------
@@ -933,10 +1121,13 @@ func (tr *Trans) builtin(b *ssa.Builtin, c *ssa.CallCommon, args []Val, in ssa.I
 		switch u := under(a.T).(type) {
 		case *types.Slice:
 			if len(a.C) == 4 {
+				g.noteLen(a.C[2])
 				return Val{T: resT, C: []Term{a.C[2]}}
 			}
 		case *types.Basic:
-			return Val{T: resT, C: []Term{g.strLen(tr.e, a.C[0])}}
+			l := g.strLen(tr.e, a.C[0])
+			g.noteLen(l)
+			return Val{T: resT, C: []Term{l}}
 		case *types.Array:
 			return Val{T: resT, C: []Term{intT(u.Len())}}
 		case *types.Pointer:
@@ -1147,12 +1338,14 @@ func inRepo(fn *ssa.Function) bool {
 func smallBody(fn *ssa.Function, max int) bool {
 	n := 0
 	for _, b := range fn.Blocks {
-		n += len(b.Instrs)
 		for _, in := range b.Instrs {
 			switch in.(type) {
 			case *ssa.Go, *ssa.Select, *ssa.Defer:
 				return false
+			case *ssa.DebugRef:
+				continue
 			}
+			n++
 		}
 		for _, s := range b.Succs {
 			if s.Dominates(b) {
